@@ -1172,6 +1172,26 @@ def gen_wasted(repo):
     out.append('end Flac.Gen')
     return '\n'.join(out) + '\n'
 
+def gen_finalize(repo):
+    """encode.rs: how the placeholder seek points reserved from a declared total get their frame lengths"""
+    n = ' '.join(strip_comments(open(os.path.join(repo, 'src/encode.rs')).read()).split())
+    out = ['/- GENERATED by tools/translate.py from src/encode.rs (EncoderSeekPoint::placeholders) — do not edit -/', 'namespace Flac.Gen', '']
+    m = re.search(r'fn placeholders\(total_samples: u64, block_size: u16\) -> impl Iterator<Item = EncoderSeekPoint> \{ \(0\.\.total_samples\) \.step_by\(usize::from\(block_size\)\) '
+                  r'\.map\(move \|sample_offset\| EncoderSeekPoint \{ sample_offset, byte_offset: None, frame_samples: (.+?), \}\) \}', n)
+    if not m:
+        raise ExtractError('EncoderSeekPoint::placeholders: expected `(0..total_samples).step_by(block_size).map(|sample_offset| EncoderSeekPoint { sample_offset, byte_offset: None, frame_samples: … })`')
+    e = m.group(1).strip()
+    if e == 'u16::try_from(total_samples - sample_offset) .map(|s| s.min(block_size)) .unwrap_or(block_size)':
+        rule = 'min blockSize remaining'          # saturating: more than 16 bits of samples remaining means a full block
+    elif e in ('((total_samples - sample_offset) as u16).min(block_size)', '(total_samples - sample_offset) as u16).min(block_size)'):
+        rule = 'min blockSize (remaining % 65536)'
+    else:
+        raise ExtractError(f'EncoderSeekPoint::placeholders: frame_samples expression `{e}` not understood')
+    out.append('/-- `EncoderSeekPoint::placeholders`: the length of the placeholder frame that starts with `remaining` samples still to come -/\n'
+               f'def encPlaceholderLen (blockSize remaining : Nat) : Nat := {rule}\n')
+    out.append('end Flac.Gen')
+    return '\n'.join(out) + '\n'
+
 def gen_par(repo):
     """facts about the parallel feature of encode.rs (C18)"""
     n = ' '.join(strip_comments(open(os.path.join(repo, 'src/encode.rs')).read()).split())
@@ -1206,14 +1226,14 @@ def gen_meta(repo):
         if not m:
             raise ExtractError(f'{what}: expected shape not found')
         return m
-    def flag(name, doc, yes, no, what):
-        """yes/no are literal fragments (or lists of fragments) of the normalised source"""
+    def flag(name, doc, yes, no, what, no_alt=()):
+        """yes/no are literal fragments (or lists of fragments) of the normalised source; no_alt: further shapes that also mean `false`"""
         ys = yes if isinstance(yes, list) else [yes]
         ns = no if isinstance(no, list) else [no]
         src = meta + ' ' + cue
         if all(y in src for y in ys):
             v = 'true'
-        elif all(x in src for x in ns):
+        elif all(x in src for x in ns) or any(x in src for x in no_alt):
             v = 'false'
         else:
             raise ExtractError(f'{what}: neither known shape found')
@@ -1356,7 +1376,8 @@ def gen_meta(repo):
             continue
         out.append(f'/-- {doc} -/\ndef {nm} : Bool := true\n')
     flag('metaUpdateFlushes', 'does the in-place path of `update_file` flush its buffered writer and report the result (false = the writer is dropped unflushed)?',
-         ['let mut w = BufWriter::new(w); write_blocks(&mut w, blocks)?; w.flush().map_err(Error::Io)', 'write_in_place(original, blocks) .map(|()| false) .map_err(E::from)'], 'write_blocks(BufWriter::new(original), blocks) .map(|()| false) .map_err(E::from)', 'update_file in-place write')
+         ['let mut w = BufWriter::new(w); write_blocks(&mut w, blocks)?; w.flush().map_err(Error::Io)', 'write_in_place(original, blocks) .map(|()| false) .map_err(E::from)'], 'write_blocks(BufWriter::new(original), blocks) .map(|()| false) .map_err(E::from)', 'update_file in-place write',
+         no_alt=['fn write_in_place<W: Write>(w: W, blocks: BlockList) -> Result<(), Error> { write_blocks(BufWriter::new(w), blocks) }'])
     out.append('end Flac.Gen')
     return '\n'.join(out) + '\n'
 
@@ -1431,6 +1452,7 @@ GENERATORS = [
     ('ByteOrder.lean', 'byteorder.rs 24-bit conversions and bytes_to_le', gen_byteorder),
     ('RateEnc.lean', 'SampleRate::try_from and the stream writer rate rule', gen_rateenc),
     ('Wasted.lean', 'encode_subframe wasted-bits determination', gen_wasted),
+    ('Finalize.lean', 'EncoderSeekPoint::placeholders frame lengths', gen_finalize),
     ('ShapesHdr.lean', 'frame header shapes', gen_shapes_hdr),
     ('ShapesRd.lean', 'reader shapes', gen_shapes_rd),
     ('ShapesEnc.lean', 'encoder-side shapes', gen_shapes_enc),
